@@ -64,13 +64,41 @@ def _fp(a):
     return (a.shape, str(a.dtype), hashlib.sha1(np.ascontiguousarray(a).tobytes()).hexdigest())
 
 
-def _snap(f):
+def _atom(v):
+    if hasattr(v, "_ast_values"):
+        return ("funsor", id(v))
+    if hasattr(v, "shape") and hasattr(v, "dtype"):
+        return ("array", id(v))
+    return repr(v)[:120]
+
+
+def _struct(f, names=None):
+    """Contents of the term's mutable container attributes (dict / list / set), funsors and arrays by identity.
+    ``names`` restricts to the attributes present when the first snapshot was taken (lazily cached ones may appear later)."""
+    out = []
+    try:
+        items = sorted(vars(f).items())
+    except TypeError:
+        return ()
+    for name, val in items:
+        if names is not None and name not in names:
+            continue
+        if isinstance(val, dict):
+            out.append((name, tuple((repr(k)[:80], _atom(v)) for k, v in val.items())))
+        elif isinstance(val, list):
+            out.append((name, tuple(_atom(v) for v in val)))
+        elif isinstance(val, tuple) and val and all(isinstance(x, tuple) and len(x) == 2 for x in val):
+            out.append((name, tuple((repr(k)[:80], _atom(v)) for k, v in val)))
+    return tuple(out)
+
+
+def _snap(f, names=None):
     data = []
     for name in ("data", "white_vec", "prec_sqrt"):
         d = getattr(f, name, None)
         if d is not None and hasattr(d, "shape"):
             data.append((name, _fp(d)))
-    return (tuple((k, str(v)) for k, v in f.inputs.items()), str(f.output), tuple(sorted(f.fresh)), tuple(sorted(f.bound)), tuple(data))
+    return (tuple((k, str(v)) for k, v in f.inputs.items()), str(f.output), tuple(sorted(f.fresh)), tuple(sorted(f.bound)), tuple(data), _struct(f, names))
 
 
 def _register_arrays():
@@ -91,8 +119,9 @@ def _verify():
         if ("d", k) in FPS and FPS[("d", k)] != _fp(a):
             return "driver array %s changed" % (k,)
     for f, snap, origin in HELD:
-        if _snap(f) != snap:
-            return "held funsor (result of %s) changed: %s -> %s" % (origin[:200], snap, _snap(f))
+        now = _snap(f, [n for n, _ in snap[-1]])
+        if now != snap:
+            return "held funsor (result of %s) changed: %s -> %s" % (origin[:200], snap, now)
     return None
 
 
@@ -114,7 +143,16 @@ def _routes(e, seed, arrays):
     def lazy():
         with I.lazy:
             x = lang.build(e, seed, arrays)
-        return interpreter.reinterpret(x)
+        # every lazily built node is a term the caller could hold: its fields must survive the evaluation of the whole
+        nodes = _nodes(x)
+        snaps = [(n, _snap_light(n)) for n in nodes]
+        r = interpreter.reinterpret(x)
+        for n, sn in snaps:
+            now = _snap_light(n, [a for a, _ in sn[-1]])
+            if now != sn:
+                LAZY_MUTATED.append("lazily built sub-term %s changed while the program was evaluated: %s -> %s" % (type(n).__name__, sn, now))
+                break
+        return r
 
     def normalize():
         with I.normalize:
@@ -131,6 +169,31 @@ def _routes(e, seed, arrays):
             return lang.build(e, seed, arrays)
 
     return (("eager", eager), ("lazy", lazy), ("normalize", normalize), ("optimizer", optimizer), ("sequential", sequential))
+
+
+LAZY_MUTATED = []
+
+
+def _nodes(x, limit=200):
+    from funsor.terms import Funsor
+
+    seen, out, stack = set(), [], [x]
+    while stack and len(out) < limit:
+        n = stack.pop()
+        if isinstance(n, (tuple, frozenset)):
+            stack.extend(n)
+            continue
+        if not isinstance(n, Funsor) or id(n) in seen:
+            continue
+        seen.add(id(n))
+        out.append(n)
+        stack.extend(n._ast_values)
+    return out
+
+
+def _snap_light(f, names=None):
+    """Like _snap without hashing array contents (arrays are covered by the fingerprints of the leaf arrays)."""
+    return (tuple((k, str(v)) for k, v in f.inputs.items()), str(f.output), tuple(sorted(f.fresh)), tuple(sorted(f.bound)), _struct(f, names))
 
 
 def _is_readonly_error(ex):
@@ -172,6 +235,9 @@ def check_term(e, seed):
             r = None
         _register_arrays()
         bad = _verify()
+        if not bad and LAZY_MUTATED:
+            bad = LAZY_MUTATED[0]
+        del LAZY_MUTATED[:]
         if bad:
             FPS.clear()
             HELD.clear()
@@ -453,6 +519,47 @@ def _g_lazy_align(rep):
     return out
 
 
+def _g_tensor_methods(rep):
+    """Public Tensor methods called directly on a tensor whose array (with infinities) the caller holds."""
+    import numpy as np
+    from collections import OrderedDict
+    from funsor.domains import Bint
+    from funsor.tensor import Tensor
+
+    k = ("tm_inf", (2, 3), rep)
+    if k not in DRIVER_ARRAYS:
+        a = _arr("tm_base", (2, 3), positive=False, rep=rep).copy()
+        a[0, 1], a[1, 2], a[1, 0] = np.inf, -np.inf, 1e308
+        DRIVER_ARRAYS[k] = a
+    t = Tensor(DRIVER_ARRAYS[k], OrderedDict(i=Bint[2], j=Bint[3]))
+    view = Tensor(DRIVER_ARRAYS[k][1], OrderedDict(j=Bint[3]))  # shares memory with t
+    yield [t, view]
+    out = [t.clamp_finite(), view.clamp_finite(), t.align(("j", "i")), t.abs(), t.exp(), -t, t.reduce(__import__("funsor").ops.max, "j"),
+           t(i=1), t(j="i2"), t.clamp_finite().clamp_finite()]
+    return out
+
+
+def _g_lazy_subs_twice(rep):
+    """Several substitutions into ONE held lazily built Subs term (its .subs / fields must not be rewritten)."""
+    from collections import OrderedDict
+    import funsor
+    from funsor.domains import Bint, Real
+    from funsor.tensor import Tensor
+    from funsor.terms import Variable
+
+    x = Tensor(_arr("ls_x", (3, 2), rep=rep), OrderedDict(i=Bint[3], k=Bint[2]))
+    idx = Tensor(__import__("numpy").array([2, 0, 1]), OrderedDict(m=Bint[3]), 3)
+    with funsor.interpretations.reflect:
+        y = x(i=Variable("j", Bint[3]))
+        z = (x * Variable("w", Real))(i=Variable("j", Bint[3]), w=Variable("v", Real))
+        u = x(i=idx)
+    yield [x, y, z, u]
+    out = [y(j=2), y(j=1), y(j="n"), y(j=idx), y(j=0, k=1), z(j=1), z(v=Tensor(_arr("ls_v", (), rep=rep))), z(j=2, v=Variable("w", Real)), u(m=1), u(m="j"), u(k=0)]
+    with funsor.interpretations.lazy:
+        out += [y(j=2), z(j=1)]
+    return out
+
+
 GEN_DRIVERS = {"approximate-lazy": _g_approximate, "gaussian-live-tensor": _g_gaussian_live_tensor, "lazy-align": _g_lazy_align}
 
 
@@ -473,6 +580,8 @@ DRIVERS = [
     ("approximate-lazy", lambda rep: _run_gen(_g_approximate, rep)),
     ("gaussian-live-tensor", lambda rep: _run_gen(_g_gaussian_live_tensor, rep)),
     ("lazy-align", lambda rep: _run_gen(_g_lazy_align, rep)),
+    ("tensor-methods", lambda rep: _run_gen(_g_tensor_methods, rep)),
+    ("lazy-subs-twice", lambda rep: _run_gen(_g_lazy_subs_twice, rep)),
     ("sample", _d_sample),
     ("array_ops", _d_array_ops),
     ("gaussian", _d_gaussian),
